@@ -379,3 +379,24 @@ def is_integral(X, bound=2.0**50):
 def render_dmat(X, ep):
     rows = ';'.join(f'({l}%N,{zrow(c)})' for l, c in to_dmat(X, ep))
     return f'[{rows}]'
+
+
+def render_raw(R):
+    R = np.asarray(R)
+    return '[' + ';'.join(zrow(r) for r in R) + ']'
+
+
+def render_fitted(prefix):
+    return f'(Build_fitted {prefix}_s {prefix}_ep {prefix}_d)'
+
+
+def opt_bool(b):
+    return 'None' if b is None else ('(Some true)' if b else '(Some false)')
+
+
+def coq_str(s):
+    return '"' + str(s).replace('"', '""') + '"'
+
+
+def render_strs(l):
+    return '[' + ';'.join(coq_str(s) for s in l) + ']%string'
